@@ -935,9 +935,9 @@ fn history_before(sc: &Sc, t: usize, s: usize) -> Vec<String> {
 
 // ---------------------------------------------------------------- generation
 
-const REC: [&str; 22] = [
+const REC: [&str; 24] = [
     "List", "MutA", "MutB", "Rose", "Expr", "Vec<List>", "Option<MutA>", "Vec<MutB>", "Vec<Rose>", "Option<Box<Expr>>", "Vec<MutA>", "(List,Rose)", "BTreeMap<Int,List>", "BTreeMap<String,Rose>", "Option<List>", "Option<Rose>", "Vec<Expr>", "Option<Expr>",
-    "G<S1>", "S2", "E1", "Vec<G<u8>>",
+    "G<S1>", "S2", "E1", "Vec<G<u8>>", "Wide", "Vec<Box<u64>>",
 ];
 
 fn pick_type(rng: &mut Rng, rec_bias: u64) -> String {
@@ -952,6 +952,19 @@ fn pick_type(rng: &mut Rng, rec_bias: u64) -> String {
 }
 
 fn gen_untyped(rng: &mut Rng) -> Option<(SEnv, SType, AV)> {
+    if rng.chance(1, 10) {
+        // a type needing more than 64 (and sometimes more than 127) type-table entries
+        let n = rng.range(60, 140) as usize;
+        let mut t = SType::Prim(Prim::Nat8);
+        for _ in 0..n {
+            t = if rng.chance(1, 8) { SType::vec(t) } else { SType::opt(t) };
+        }
+        let env = SEnv::new();
+        let vg = ValGen::new(&env, 64);
+        let mut budget = rng.range(1, 200) as isize;
+        let v = vg.gen(rng, &t, &mut budget)?;
+        return Some((env, t, v));
+    }
     let mut k = TyKnobs::draw(rng);
     k.allow_empty = false;
     let env = gen_env(rng, &k);
@@ -1134,6 +1147,20 @@ pub fn generate(prop: &str, _tier: Tier, seed: u64, run: u64) -> Sc {
             tasks.push(protocol_task(&mut wl, &mut fl, world, c03, rec_bias));
         } else {
             tasks.push(other_task(&mut wl, &mut fl, world, c03, rec_bias));
+        }
+    }
+    // very deep types (large type tables) only on roomy stacks: neither the encoder's table
+    // construction nor the harness's own recursive helpers are what the small stacks are for
+    let mut stacks_kib = stacks_kib;
+    for t in &tasks {
+        let deep = t.stages.iter().any(|s| match s {
+            Stage::ValueArg { ty, .. } => ty.nodes() > 40,
+            Stage::ToBytesWithTypes { tys, .. } => tys.iter().any(|t| t.nodes() > 40),
+            _ => false,
+        });
+        if deep {
+            let w = t.world % stacks_kib.len();
+            stacks_kib[w] = 8192;
         }
     }
     // recovery probe: one more plain round trip at the very end
